@@ -142,26 +142,11 @@ Theorem C12_suffices_cnv_by_const_apply : forall fam n : Z, is_fam fam -> 0 <= n
 Proof. exact suffices_cnv_by_const_apply. Qed.
 Print Assumptions C12_suffices_cnv_by_const_apply.
 
-(* cnv_pairwise_apply_dft: FALSE when called as the trait documents it, (cnv_offset, res_size, ..): the delegate reads
-   (res_size, cnv_offset, ..) - which is how the in-tree hal tests call it *)
-Definition C12_suffices_cnv_pairwise_apply_dft_full : Prop := forall fam n cnv_offset rs a b : Z,
-  is_fam fam -> 0 <= rs -> 1 <= a -> 1 <= b ->
-  run_takes (t_cnv_pairwise_apply_dft fam rs a b) (0, api_cnv_pairwise_apply_dft_tmp_bytes fam n cnv_offset rs a b) <> None.
-Theorem C12_suffices_cnv_pairwise_apply_dft_partial : forall fam n cnv_offset rs a b : Z,
-  is_fam fam -> 0 <= rs -> 1 <= a -> 1 <= b -> Z.min rs (a + b - 1) <= cnv_offset ->
-  run_takes (t_cnv_pairwise_apply_dft fam rs a b) (0, api_cnv_pairwise_apply_dft_tmp_bytes fam n cnv_offset rs a b) <> None.
-Proof. exact suffices_cnv_pairwise_apply_dft_partial. Qed.
-Print Assumptions C12_suffices_cnv_pairwise_apply_dft_partial.
-Theorem C12_suffices_cnv_pairwise_apply_dft_effective : forall fam n cnv_offset rs a b : Z,
-  is_fam fam -> 0 <= rs -> 1 <= a -> 1 <= b ->
+Theorem C12_suffices_cnv_pairwise_apply_dft : forall fam n cnv_offset rs a b : Z,
+  is_fam fam -> 0 <= n -> 0 <= rs -> 1 <= a -> 1 <= b ->
   run_takes (t_cnv_pairwise_apply_dft fam rs a b) (0, api_cnv_pairwise_apply_dft_tmp_bytes fam n rs cnv_offset a b) <> None.
-Proof. exact suffices_cnv_pairwise_apply_dft_effective. Qed.
-Print Assumptions C12_suffices_cnv_pairwise_apply_dft_effective.
-Theorem C12_suffices_cnv_pairwise_apply_dft_refuted :
-  exists fam n cnv_offset rs a b, is_fam fam /\ pow2 n /\ 8 <= n /\ 0 <= rs /\ 1 <= a /\ 1 <= b /\
-  run_takes (t_cnv_pairwise_apply_dft fam rs a b) (0, api_cnv_pairwise_apply_dft_tmp_bytes fam n cnv_offset rs a b) = None.
-Proof. exact suffices_cnv_pairwise_apply_dft_refuted. Qed.
-Print Assumptions C12_suffices_cnv_pairwise_apply_dft_refuted.
+Proof. exact suffices_cnv_pairwise_apply_dft. Qed.
+Print Assumptions C12_suffices_cnv_pairwise_apply_dft.
 
 (* vmp_apply_dft: two nested takes; n a power of two >= 8 (the FFT64 kernels need n >= 8 anyway) *)
 Theorem C12_suffices_vmp_apply_dft : forall fam n rs a rows ci co size : Z,
@@ -220,31 +205,16 @@ Theorem C12_suffices_glwe_encrypt_sk_small_n_refuted :
 Proof. exact suffices_glwe_encrypt_sk_small_n_refuted. Qed.
 Print Assumptions C12_suffices_glwe_encrypt_sk_small_n_refuted.
 
-(* glwe_decrypt / glwe_encrypt_pk: FALSE on the NTT120 family for one-limb ciphertexts (the formulas reserve
-   vec_znx_normalize_tmp_bytes, the code runs vec_znx_big_normalize) *)
-Definition C12_suffices_glwe_decrypt_full : Prop := forall (fam n : Z) (glwe : infos),
+Theorem C12_suffices_glwe_decrypt : forall (fam n : Z) (glwe : infos),
   is_fam fam -> pow2 n -> 8 <= n -> 0 <= i_size glwe -> 0 <= i_rank glwe ->
   run_takes (tree_glwe_decrypt fam n glwe) (0, glwe_decrypt_tmp_bytes fam n glwe) <> None.
-Theorem C12_suffices_glwe_decrypt_partial : forall (fam n : Z) (glwe : infos),
-  is_fam fam -> pow2 n -> 8 <= n -> 0 <= i_size glwe -> 0 <= i_rank glwe -> fam = 0 \/ 2 <= i_size glwe ->
-  run_takes (tree_glwe_decrypt fam n glwe) (0, glwe_decrypt_tmp_bytes fam n glwe) <> None.
-Proof. exact main_glwe_decrypt_partial. Qed.
-Print Assumptions C12_suffices_glwe_decrypt_partial.
-Theorem C12_suffices_glwe_decrypt_refuted :
-  exists fam n glwe, is_fam fam /\ pow2 n /\ 8 <= n /\ 1 <= i_size glwe /\ 1 <= i_rank glwe /\
-    run_takes (tree_glwe_decrypt fam n glwe) (0, glwe_decrypt_tmp_bytes fam n glwe) = None.
-Proof. exact suffices_glwe_decrypt_refuted. Qed.
-Print Assumptions C12_suffices_glwe_decrypt_refuted.
-Theorem C12_suffices_glwe_encrypt_pk_partial : forall (fam n : Z) (res : infos),
-  is_fam fam -> pow2 n -> 8 <= n -> 0 <= i_size res -> 0 <= i_rank res -> fam = 0 \/ 2 <= i_size res ->
+Proof. exact main_glwe_decrypt. Qed.
+Print Assumptions C12_suffices_glwe_decrypt.
+Theorem C12_suffices_glwe_encrypt_pk : forall (fam n : Z) (res : infos),
+  is_fam fam -> pow2 n -> 8 <= n -> 0 <= i_size res -> 0 <= i_rank res ->
   run_takes (tree_glwe_encrypt_pk fam n res (i_size res)) (0, glwe_encrypt_pk_tmp_bytes fam n res) <> None.
-Proof. exact main_glwe_encrypt_pk_partial. Qed.
-Print Assumptions C12_suffices_glwe_encrypt_pk_partial.
-Theorem C12_suffices_glwe_encrypt_pk_refuted :
-  exists fam n res, is_fam fam /\ pow2 n /\ 8 <= n /\ 1 <= i_size res /\ 1 <= i_rank res /\
-    run_takes (tree_glwe_encrypt_pk fam n res (i_size res)) (0, glwe_encrypt_pk_tmp_bytes fam n res) = None.
-Proof. exact suffices_glwe_encrypt_pk_refuted. Qed.
-Print Assumptions C12_suffices_glwe_encrypt_pk_refuted.
+Proof. exact main_glwe_encrypt_pk. Qed.
+Print Assumptions C12_suffices_glwe_encrypt_pk.
 
 (* key-switch family: any rank, any number of limbs, any dnum, dsize = 1 and > 1, same radix and cross-radix input *)
 Theorem C12_suffices_glwe_keyswitch : forall (fam n : Z) (res a key : infos),
@@ -279,35 +249,27 @@ Theorem C12_suffices_ggsw_external_product : forall (fam n : Z) (res a ggsw : in
 Proof. exact main_ggsw_external_product. Qed.
 Print Assumptions C12_suffices_ggsw_external_product.
 
-(* glwe_automorphism_add / _sub / _sub_negate: FALSE on the NTT120 family for a cross-radix one-limb rank-1 input *)
-Definition C12_suffices_glwe_automorphism_add_full : Prop := forall (fam n : Z) (res a key : infos),
+Theorem C12_suffices_glwe_automorphism_add : forall (fam n : Z) (res a key : infos),
   is_fam fam -> pow2 n -> 8 <= n -> wf_infos res -> wf_infos a -> wf_infos key -> i_n a = n -> i_rank a = i_rank_in key ->
   run_takes (tree_glwe_automorphism_add fam n res a key) (0, glwe_automorphism_tmp_bytes fam n res a key) <> None.
-Theorem C12_suffices_glwe_automorphism_add_partial : forall (fam n : Z) (res a key : infos),
-  is_fam fam -> pow2 n -> 8 <= n -> wf_infos res -> wf_infos a -> wf_infos key -> i_n a = n -> i_rank a = i_rank_in key ->
-  fam = 0 \/ i_base2k a = i_base2k key \/ 2 <= i_rank a * i_size (conv_layout a key) ->
-  run_takes (tree_glwe_automorphism_add fam n res a key) (0, glwe_automorphism_tmp_bytes fam n res a key) <> None.
-Proof. exact main_glwe_automorphism_add_partial. Qed.
-Print Assumptions C12_suffices_glwe_automorphism_add_partial.
-Theorem C12_suffices_glwe_automorphism_add_refuted :
-  exists fam n res a key, is_fam fam /\ pow2 n /\ 8 <= n /\ wf_infos res /\ wf_infos a /\ wf_infos key /\
-    i_n a = n /\ i_rank a = i_rank_in key /\
-    run_takes (tree_glwe_automorphism_add fam n res a key) (0, glwe_automorphism_tmp_bytes fam n res a key) = None.
-Proof. exact suffices_glwe_automorphism_add_refuted. Qed.
-Print Assumptions C12_suffices_glwe_automorphism_add_refuted.
-
-(* glwe_trace (not the _assign form) and glwe_mul_const: FALSE *)
-Theorem C12_suffices_glwe_trace_refuted :
-  exists fam n res a key steps, is_fam fam /\ pow2 n /\ 8 <= n /\ wf_infos res /\ wf_infos a /\ wf_infos key /\
-    i_n a = n /\ i_rank a = i_rank_in key /\ i_base2k a = i_base2k key /\ i_base2k res = i_base2k key /\ 0 <= steps /\
-    run_takes (tree_glwe_trace_same fam n res a key steps) (0, glwe_trace_tmp_bytes fam n res a key) = None.
-Proof. exact suffices_glwe_trace_refuted. Qed.
-Print Assumptions C12_suffices_glwe_trace_refuted.
-Theorem C12_suffices_glwe_mul_const_refuted :
-  exists fam n res a b_len cnv_offset, is_fam fam /\ pow2 n /\ 8 <= n /\ wf_infos res /\ wf_infos a /\ 1 <= b_len /\ 0 <= cnv_offset /\
-    run_takes (tree_glwe_mul_const fam n res a b_len cnv_offset) (0, glwe_mul_const_tmp_bytes fam n res a b_len) = None.
-Proof. exact suffices_glwe_mul_const_refuted. Qed.
-Print Assumptions C12_suffices_glwe_mul_const_refuted.
+Proof. exact main_glwe_automorphism_add. Qed.
+Print Assumptions C12_suffices_glwe_automorphism_add.
+Theorem C12_suffices_glwe_trace : forall (fam n : Z) (res a key : infos) (steps : Z),
+  is_fam fam -> pow2 n -> 8 <= n -> wf_infos res -> wf_infos a -> wf_infos key -> i_n res = n -> i_rank res = i_rank_in key ->
+  run_takes (tree_glwe_trace fam n res a key steps) (0, glwe_trace_tmp_bytes fam n res a key) <> None.
+Proof. exact main_glwe_trace. Qed.
+Print Assumptions C12_suffices_glwe_trace.
+Theorem C12_suffices_glwe_trace_assign : forall (fam n : Z) (res key : infos) (steps : Z),
+  is_fam fam -> pow2 n -> 8 <= n -> wf_infos res -> wf_infos key -> i_n res = n -> i_rank res = i_rank_in key ->
+  run_takes (tree_glwe_trace_assign fam n res key steps) (0, glwe_trace_tmp_bytes fam n res res key) <> None.
+Proof. exact main_glwe_trace_assign. Qed.
+Print Assumptions C12_suffices_glwe_trace_assign.
+Theorem C12_suffices_glwe_mul_const : forall (fam n : Z) (res a : infos) (b_len cnv_offset : Z),
+  is_fam fam -> pow2 n -> 8 <= n -> wf_infos res -> wf_infos a -> 1 <= i_size a -> 1 <= b_len -> 0 <= cnv_offset ->
+  (if cnv_offset <? i_base2k a then 0 else Z.max 0 (cnv_offset / i_base2k a - 1)) <= i_size a + b_len ->
+  run_takes (tree_glwe_mul_const fam n res a b_len cnv_offset) (0, glwe_mul_const_tmp_bytes fam n res a b_len) <> None.
+Proof. exact main_glwe_mul_const. Qed.
+Print Assumptions C12_suffices_glwe_mul_const.
 
 (* ------------------------------------------------------------------ the hypotheses are satisfiable *)
 Example C12_ex_pow2 : pow2 1024 /\ 8 <= 1024.
